@@ -388,7 +388,57 @@ def extract(ctx):
                         self_writes.append((cname, fn.name, '<%s %s>' % (
                             fname, ast.unparse(node.args[1]) if len(node.args) > 1 else '?')))
 
+    # ---- objects recognised by IDENTITY (`x is _MISSING`, `lhs is M`, `self.spec is not T`): a spec that
+    # went through copy.copy / copy.deepcopy / a pickle round trip must still hold the very same marker
+    # (C09/C10: a copied spec decides like the original).  (name, how, preserved) per marker and per way
+    # of copying; an object that cannot be pickled at all cannot come back different: preserved.
+    import copy as _copy
+    import pickle as _pickle
+    import sys as _sys
+    ident_names = []
+    for n in ast.walk(mt):
+        if isinstance(n, ast.Compare) and len(n.ops) == 1 and isinstance(n.ops[0], (ast.Is, ast.IsNot)):
+            for side in (n.left, n.comparators[0]):
+                if isinstance(side, ast.Name) and side.id not in ident_names:
+                    ident_names.append(side.id)
+    identity = []
+    mmod = _sys.modules.get('glom.matching')
+    if mmod is None:
+        P.add('glom.matching is not imported')
+    else:
+        for name in sorted(ident_names):
+            if not hasattr(mmod, name):
+                continue                     # a local variable on both sides
+            obj = getattr(mmod, name)
+            if obj is None or obj is True or obj is False or isinstance(obj, type):
+                continue
+            for how, f in (('copy', _copy.copy), ('deepcopy', _copy.deepcopy),
+                           ('pickle', lambda o: _pickle.loads(_pickle.dumps(o)))):
+                try:
+                    ok = f(obj) is obj
+                except Exception:
+                    ok = True
+                identity.append((name, how, ok))
+        if not any(r[0] == '_MISSING' for r in identity):
+            P.add('matching.py: no identity test against _MISSING found')
+
+    # ---- class table rows of the builtin value classes: real MRO followed by the stdlib ABCs
+    # (collections.abc, numbers) the class is a (virtual) subclass of.  CPython's table, not glom's:
+    # it gives `isinstance(target, <ABC>)` its answer in the model of the type rule.
+    import collections.abc as _cabc
+    import numbers as _numbers
+    abcs = [_cabc.Hashable, _cabc.Sized, _cabc.Iterable, _cabc.Container, _cabc.Collection,
+            _cabc.Reversible, _cabc.Sequence, _cabc.MutableSequence, _cabc.Mapping, _cabc.MutableMapping,
+            _cabc.Set, _cabc.MutableSet, _cabc.Callable, _numbers.Number, _numbers.Complex, _numbers.Real,
+            _numbers.Rational, _numbers.Integral]
+    abc_rows = []
+    for c in (type(None), bool, int, float, str, list, tuple, set, frozenset, dict, object):
+        abc_rows.append((c.__name__, [m.__name__ for m in c.__mro__] +
+                         [a.__name__ for a in abcs if issubclass(c, a)]))
+
     defs = [
+        ('identityMarkers', 'List (String × String × Bool)', identity),
+        ('abcClassTable', 'List (String × List String)', abc_rows),
         ('combSelfWrites', 'List (String × String × String)', self_writes),
         ('matchRaises', 'List (String × List String)', raises),
         ('matchCatches', 'List (String × List (List String))', catches),
